@@ -43,6 +43,19 @@ Theorem C17_mps_temperature_persisted : forall c steps1 steps2 t n, c_meth c = M
   resume_statement c (steps1 ++ OUpdate (Some t) None None None :: steps2) n.
 Proof. exact mps_temperature_persisted. Qed.
 
+(* requires_grad (train_net_only / train_nas_only / train_net_and_nas / train_features|rf|dilation / train_selection), the
+   SuperNet coefficient attribute and the MPS ranges are transient and observation-irrelevant: after the forward pass the
+   observations are a function of the persisted tensors and of (training, discrete_cost, hard, gumbel, disable, temperature) only;
+   a trainability switch changes neither (so every history with such switches at any point, also right before the checkpoint,
+   is covered by C17_resume_equiv_neutral_history: keeps_opts c (OTrainSwitch w b) = true by computation) *)
+Theorem C17_observations_ignore_trainability : forall n m p t1 t2, opts t1 = opts t2 ->
+  observe (forward n {| meth := m; pe := p; tr := t1 |}) = observe (forward n {| meth := m; pe := p; tr := t2 |}).
+Proof. exact observations_ignore_trainability. Qed.
+
+Theorem C17_switch_changes_nothing_observable : forall s w b,
+  opts (tr (step s (OTrainSwitch w b))) = opts (tr s) /\ pe (step s (OTrainSwitch w b)) = pe s.
+Proof. exact switch_keeps_opts. Qed.
+
 (* which observation needs which option.  PIT: only the cost reads discrete_cost *)
 Theorem C17_pit_resume_out_summary_export : forall c ops n, c_meth c = PIT ->
   let s := run (fresh c) ops in
@@ -109,6 +122,8 @@ Print Assumptions C17_resume_equiv.
 Print Assumptions C17_resume_protocols_agree.
 Print Assumptions C17_resume_equiv_neutral_history.
 Print Assumptions C17_mps_temperature_persisted.
+Print Assumptions C17_observations_ignore_trainability.
+Print Assumptions C17_switch_changes_nothing_observable.
 Print Assumptions C17_pit_resume_out_summary_export.
 Print Assumptions C17_mps_eval_resume.
 Print Assumptions C17_resume_after_option_change_refuted.
